@@ -77,33 +77,55 @@ def r9_repeat_none(prog):
     count unchanged; the sequential iterator yields Some(None) exactly `count` times (decrement by one
     under count > 0)."""
     r = Result()
-    def fn_of(self_name, name):
-        c = [f for f in prog.fns.values() if f.name == name and f.impl and is_adt(f.impl['self'], 'query::view::par::seal::repeat::' + self_name)]
-        return c[0] if len(c) == 1 else None
+    MOD = 'query::view::par::seal::repeat::'
+
+    def role(trait_suffix):
+        """(adt path, {method name: Fn}) of the impl of that trait for a type of the repeat module"""
+        out = []
+        for imp in prog.facts['impls']:
+            if imp['trait'] and imp['trait']['path'].endswith(trait_suffix) and imp['self'].get('k') == 'adt' and imp['self']['path'].startswith(MOD):
+                m = {f.name: f for f in prog.impl_methods(imp)}
+                m['__assoc__'] = {it['name']: it.get('ty') for it in imp['items'] if it.get('kind') == 'AssocTy'}
+                out.append((imp['self']['path'], m))
+        return out
+
     def count_field(owner):
-        adt = prog.adts['query::view::par::seal::repeat::' + owner]
-        return [x['name'] for x in adt['variants'][0]['fields']].index('count')
+        flds = prog.adts[owner]['variants'][0]['fields']
+        nm = [x['name'] for x in flds]
+        if 'count' in nm:
+            return nm.index('count')
+        us = [i for i, x in enumerate(flds) if ty_str(x['ty']) == 'usize']
+        return us[0] if len(us) == 1 else None
 
     def self_count(f, owner):
         me = ('p', 1, f.body.local_name(1) or 'self')
         ci = count_field(owner)
-        return lambda t: pathsem.is_field_of(t, owner, ci) and pathsem.mentions(t, lambda u: u == me)
-    f = fn_of('RepeatNoneProducer', 'split_at')
-    if f is None:
-        r.viol('R9', 'split_at/missing', '-', 'RepeatNoneProducer::split_at not found')
+        return lambda t: pathsem.is_field_of(t, owner.rsplit('::', 1)[-1], ci) and pathsem.mentions(t, lambda u: u == me)
+    prods = role('plumbing::Producer')
+    ipis = role('iter::IndexedParallelIterator')
+    iters = role('core::iter::Iterator') or role('iter::traits::iterator::Iterator')
+    if len(prods) != 1 or len(ipis) != 1 or not iters:
+        r.viol('R9', 'split_at/missing', '-', 'the Producer / IndexedParallelIterator / Iterator impls of the absent-column placeholder were not found')
+        return r
+    P, pm = prods[0]
+    Q, qm = ipis[0]
+    pname = P.rsplit('::', 1)[-1]
+    f = pm.get('split_at')
+    if f is None or count_field(P) is None:
+        r.viol('R9', 'split_at/missing', '-', '%s::split_at not found' % pname)
     else:
         E = pathsem.analyse(prog, f)
         rets = [p for p in E.paths if p.ended == 'return']
-        ci = count_field('RepeatNoneProducer')
-        is_cnt = self_count(f, 'RepeatNoneProducer')
-        idx = ('p', f.body.arg_local('index') or 2, 'index')
-        r.inst('RepeatNoneProducer::split_at: %d path(s)' % len(rets))
+        ci = count_field(P)
+        is_cnt = self_count(f, P)
+        idx = ('p', 2, f.body.local_name(2) or '')
+        r.inst('%s::split_at: %d path(s)' % (pname, len(rets)))
         if not rets or E.truncated:
             r.viol('R9', 'split_at/shape', f.loc(), 'split_at not analysable')
         for p in rets[:1] if len(rets) == 1 else rets:
             v = p.ret
             halves = v[4] if isinstance(v, tuple) and v[0] == 'agg' and v[1] == 'tuple' and len(v[4]) == 2 else None
-            if not halves or not all(isinstance(h, tuple) and h[0] == 'agg' and h[1].endswith('RepeatNoneProducer') for h in halves):
+            if not halves or not all(isinstance(h, tuple) and h[0] == 'agg' and h[1] == P for h in halves):
                 r.viol('R9', 'split_at/shape', f.loc(), 'split_at does not return a pair of producers')
                 break
             left, right = pathsem.lin(halves[0][4][ci]), pathsem.lin(halves[1][4][ci])
@@ -114,46 +136,61 @@ def r9_repeat_none(prog):
             if not (right.const == 0 and len(rt) == 2 and len(cnts) == 1 and rt[cnts[0]] == 1 and rt.get(idx) == -1):
                 r.viol('R9', 'split_at/right-count', f.loc(), 'right half must yield `count - index` items (got %s)' % right)
             break
-    for self_name, name, field in (('RepeatNoneProducer', 'into_iter', 'RepeatNoneIter'), ('RepeatNone', 'with_producer', 'RepeatNoneProducer')):
-        f = fn_of(self_name, name)
-        if f is None:
-            r.viol('R9', '%s/missing' % name, '-', '%s::%s not found' % (self_name, name))
+    # the iterator type is what Producer::into_iter returns
+    fi = pm.get('into_iter')
+    I = None
+    if fi is not None:
+        out = fi.d.get('output') or {}
+        if out.get('k') == 'alias':
+            out = pm['__assoc__'].get(out.get('name')) or {}
+        if out.get('k') == 'adt' and out['path'] in [x[0] for x in iters]:
+            I = out['path']
+    for owner, f, name, field in ((P, fi, 'into_iter', I), (Q, qm.get('with_producer'), 'with_producer', P)):
+        oname = owner.rsplit('::', 1)[-1]
+        if f is None or field is None or count_field(field) is None or count_field(owner) is None:
+            r.viol('R9', '%s/missing' % name, '-', '%s::%s not found' % (oname, name))
             continue
         E = pathsem.analyse(prog, f)
-        is_cnt = self_count(f, self_name)
+        is_cnt = self_count(f, owner)
         ci = count_field(field)
+        me = ('p', 1, f.body.local_name(1) or 'self')
         ok = bool(E.paths) and not E.truncated
         n = 0
         for p in E.paths:
             if p.ended != 'return':
                 continue
-            built = [t for t in pathsem.subterms(p.ret) if t[0] == 'agg' and t[1].endswith(field)]
+            if field == owner and p.ret == me:
+                n += 1            # the value itself is handed on
+                continue
+            built = [t for t in pathsem.subterms(p.ret) if t[0] == 'agg' and t[1] == field]
             for e in p.calls():
                 for a_ in e['vals']:
-                    built += [t for t in pathsem.subterms(a_) if t[0] == 'agg' and t[1].endswith(field)]
+                    built += [t for t in pathsem.subterms(a_) if t[0] == 'agg' and t[1] == field]
+                    if field == owner and a_ == me:
+                        n += 1
             n += len(built)
-            if not built or not all(is_cnt(b_[4][ci]) for b_ in built):
+            if not all(is_cnt(b_[4][ci]) for b_ in built):
                 ok = False
-        r.inst('%s::%s carries count' % (self_name, name))
+        r.inst('%s::%s carries count' % (oname, name))
         if not ok or not n:
-            r.viol('R9', '%s/count-changed' % name, f.loc(), '%s::%s must hand on the count unchanged' % (self_name, name))
-    f = fn_of('RepeatNone', 'len')
+            r.viol('R9', '%s/count-changed' % name, f.loc(), '%s::%s must hand on the count unchanged' % (oname, name))
+    f = qm.get('len')
     if f is not None:
-        r.inst('RepeatNone::len')
+        r.inst('%s::len' % Q.rsplit('::', 1)[-1])
         E = pathsem.analyse(prog, f)
-        is_cnt = self_count(f, 'RepeatNone')
+        is_cnt = self_count(f, Q)
         if not E.paths or not all(p.ended == 'return' and is_cnt(p.ret) for p in E.paths):
             r.viol('R9', 'len/not-count', f.loc(), 'RepeatNone::len must be the count')
     else:
         r.viol('R9', 'len/missing', '-', 'RepeatNone::len not found')
     # the sequential iterator yields Some(None) exactly `count` times
-    f = fn_of('RepeatNoneIter', 'next')
-    if f is None:
+    f = dict(iters).get(I, {}).get('next') if I else None
+    if f is None or count_field(I) is None:
         r.viol('R9', 'next/missing', '-', 'RepeatNoneIter::next not found')
     else:
         E = pathsem.analyse(prog, f)
         rets = [p for p in E.paths if p.ended == 'return']
-        is_cnt = self_count(f, 'RepeatNoneIter')
+        is_cnt = self_count(f, I)
         r.inst('RepeatNoneIter::next: %d paths' % len(rets))
         bad = None
         if E.truncated or not rets:
